@@ -3,7 +3,7 @@
    enc_* are the wire forms (proved in C03 to be what the writers emit); `tail` is whatever
    follows the section in the stream; both sides return Ok with the same rest of the stream,
    i.e. the same status and the same end position. *)
-From Sbdf Require Import ImpCall Gen.Prog ImpBase ImpFactsSkip ImpFactsSkipObj ImpFactsSkipVa ImpFactsSkipCs.
+From Sbdf Require Import ImpCall Gen.Prog ImpBase ImpFactsSkip ImpFactsSkipObj ImpFactsSkipVa ImpFactsSkipCs ImpFactsCells ImpFactsReadArr ImpFactsReadVa.
 From Coq Require Import List.
 From Sbdf Require Import Slice PrimFacts ObjFacts VaFacts SliceFacts.
 
@@ -132,3 +132,22 @@ Proof.
   rewrite (cs_skip_exact false c tail W) in F. exact F.
 Qed.
 Print Assumptions C07_source_cs_skip_exact.
+
+(* reading and skipping side by side, both from the source: on the bytes of any well-formed plain or run-length value array
+   followed by anything, sbdf_va_read returns OK and a handle with the stream at exactly the trailing bytes - which is where
+   sbdf_va_skip (C07_source_va_skip with the model's va_skip_exact) leaves it *)
+Theorem C07_source_va_read_exact : forall rf rp fo po k m h v tail, k < 0 -> wf_va v -> byte_ok (vty v) -> venc v <> SBDF_BITARRAYENCODINGTYPEID ->
+  Forall byte (enc_va false v ++ tail) ->
+  exists f0, forall f, (f0 <= f)%nat -> exists fin,
+    callC prog_env f prog_sbdf_va_read [VPtr rf fo; VPtr rp po] m k (enc_va false v ++ tail) h = OReturn (VInt SBDF_OK) fin /\
+    Imp.lookup strm_var (vars fin) = Some (VBytes tail) /\ Imp.lookup "*handle" (vars fin) = Some (VCell (List.length h) 0).
+Proof.
+  intros rf rp fo po k m h v tail Hk W B Hne Hb.
+  assert (H3 : forall t s2, enc_va false v ++ tail <> 3 :: t :: s2).
+  { intros t s2 E. unfold enc_va in E. cbn [app] in E. injection E as E _. destruct W; cbn [venc] in *; try discriminate E. apply Hne. reflexivity. }
+  destruct (va_read_source rf rp fo po k (enc_va false v ++ tail) m h Hb H3) as (f0 & F). exists f0. intros f Hf.
+  destruct (F f Hf) as (st & fin & C & _ & MT & Out). specialize (MT Hk).
+  destruct (rspec_va false v W B) as [E _]. rewrite (E tail) in MT. destruct MT as (-> & MS).
+  exists fin. split; [exact C|]. split; [exact MS|]. destruct Out as [(_ & Hh & _)|(Hn & _)]; [exact Hh|unfold SBDF_OK in Hn; lia].
+Qed.
+Print Assumptions C07_source_va_read_exact.
